@@ -21,9 +21,11 @@ def main():
     props = [json.loads(l)["id"] for l in open(os.path.join(V, "properties.jsonl"))]
     checks = []
     claimed = set()
+    wipf = os.path.join(V, "checks", "wip.json")
+    wip = json.load(open(wipf)) if os.path.exists(wipf) else []
     for pid in props:
         p = os.path.join(V, "checks", pid + ".py")
-        if not os.path.exists(p):
+        if not os.path.exists(p) or pid in wip:
             continue
         m = meta_of(p)
         if not m:
